@@ -28,6 +28,7 @@ import Compass.Proofs.SearchOpt
 import Compass.Proofs.SearchRoute
 import Compass.Proofs.ConfigUniform
 import Compass.Proofs.ConfigAdmissible
+import Compass.Proofs.Build
 
 namespace Compass
 namespace C02
@@ -397,6 +398,100 @@ example : exSA.hOf 0 ≠ 0 ∧ ∃ r route, exSA.runVertex 0 (some 3) [0, 1, 2, 
   exact ⟨r, route, hr, h1, h5⟩
 
 end
+
+/-! ### The maximum speed the time estimate divides by, and the weight factor of the query
+
+`SpeedTraversalEngine::new` reads the speed table from a file and hands `get_max_speed` of it to the
+model; `SpeedMetric` (the premise of `config_speed_estimate_admissible`) asks `0 < max_speed` and
+`table speed ≤ max_speed` on every edge.  Both hold of every engine the constructor returns, for
+every file. -/
+
+open Build
+
+/-- `get_max_speed` answers `m` exactly when `m` is an entry of the table, positive, and no entry is
+larger: the maximum, never anything else -/
+theorem max_speed_is_table_maximum (table : List α) (m : α) :
+    getMaxSpeed table = .ok m ↔ (m ∈ table ∧ 0 < m ∧ ∀ s ∈ table, s ≤ m) :=
+  getMaxSpeed_ok_iff table m
+
+/-- … and it refuses exactly the tables that have no maximum to offer: no entry at all, or no
+positive entry (nothing could be traversed, and the estimate would divide by zero) -/
+theorem max_speed_refused_iff (table : List α) :
+    (getMaxSpeed table = .error .empty ↔ table = []) ∧
+    (getMaxSpeed table = .error .zero ↔ (table ≠ [] ∧ ∀ s ∈ table, s ≤ 0)) ∧
+    (∀ k, getMaxSpeed table = .error k → k = .empty ∨ k = .zero) :=
+  ⟨getMaxSpeed_empty_iff table, getMaxSpeed_zero_iff table, fun _ h => getMaxSpeed_error_kind h⟩
+
+/-- Every engine `SpeedTraversalEngine::new` returns — whatever the file, the units given or left
+to their defaults — carries a positive `max_speed` that is a table entry and bounds every table
+entry, and no negative entry: the `ms_pos` and `sp ≤ ms` premises of `SpeedMetric`. -/
+theorem speed_engine_estimate_premise (file : Option (List (NumRow α))) (su : SpeedUnit)
+    (duOpt : Option DistanceUnit) (tuOpt : Option TimeUnit) (e : SpeedEngine α)
+    (h : speedEngineNew file su duOpt tuOpt = .ok e) :
+    0 < e.maxSpeed ∧ e.maxSpeed ∈ e.table ∧
+      ∀ (i : Nat) (sp : α), e.table[i]? = some sp → 0 ≤ sp ∧ sp ≤ e.maxSpeed := by
+  obtain ⟨rows, _, hrows, hmax, _⟩ := (speedEngineNew_ok_iff file su duOpt tuOpt e).1 h
+  obtain ⟨hm, hpos, hall⟩ := (getMaxSpeed_ok_iff _ _).1 hmax
+  refine ⟨hpos, hm, fun i sp hsp => ⟨?_, hall sp (List.mem_of_getElem? hsp)⟩⟩
+  obtain ⟨x, _, hx⟩ := (allSome_getElem? hrows i).2 sp hsp
+  exact ((parseSpeed_iff x sp).1 hx).2
+
+/-- the same through the application's builder (`SpeedLookupBuilder::build`): whatever the
+configuration and the file, a service that is built estimates with the table's maximum -/
+theorem speed_builder_estimate_premise (cfg : Json) (file : Option (List (NumRow α))) (e : SpeedEngine α)
+    (h : speedLookupBuild cfg file = .ok e) :
+    0 < e.maxSpeed ∧ ∀ (i : Nat) (sp : α), e.table[i]? = some sp → sp ≤ e.maxSpeed := by
+  unfold speedLookupBuild at h
+  split at h
+  · cases h
+  · split at h
+    · cases h
+    · split at h
+      · cases h
+      · split at h
+        · cases h
+        · have := speed_engine_estimate_premise _ _ _ _ e h
+          exact ⟨this.1, fun i sp hsp => (this.2.2 i sp hsp).2⟩
+
+/-- a speed table file with a row that is not a number, is negative or is NaN, a file without rows,
+a file without a positive row, and a file that cannot be read are all refused -/
+theorem speed_engine_refuses (su : SpeedUnit) (duOpt : Option DistanceUnit) (tuOpt : Option TimeUnit) :
+    (speedEngineNew (α := α) none su duOpt tuOpt = .error .read) ∧
+    (∀ rows : List (NumRow α), (∃ r ∈ rows, parseSpeed r = none) →
+      speedEngineNew (some rows) su duOpt tuOpt = .error .read) ∧
+    (speedEngineNew (α := α) (some []) su duOpt tuOpt = .error .empty) ∧
+    (∀ (rows : List (NumRow α)) (table : List α), Build.allSome parseSpeed rows = some table → table ≠ [] →
+      (∀ s ∈ table, s ≤ 0) → speedEngineNew (some rows) su duOpt tuOpt = .error .zero) :=
+  speedEngineNew_errors su duOpt tuOpt
+
+theorem speed_row_accepted_iff (r : NumRow α) (x : α) : parseSpeed r = some x ↔ (r = .val x ∧ 0 ≤ x) :=
+  parseSpeed_iff r x
+
+omit [Field α] [LinearOrder α] [IsStrictOrderedRing α] [Lit α] [LawfulLit α] in
+/-- The weight factor in force is the query's own number whenever the query has the field —
+whatever is configured, Dijkstra's zero included —, the configured one otherwise; a field that is
+not a number is an error response (`BuildError`), never a default. -/
+theorem weight_factor_of_query (dec : Nat → α) (q : Json) (configured : Option α) :
+    (q.get? "weight_factor" = none → weightFactorOfQuery dec q configured = .ok configured) ∧
+    (∀ l b, q.get? "weight_factor" = some (.num l b) →
+      weightFactorOfQuery dec q configured = .ok (some (dec b))) ∧
+    (∀ v, q.get? "weight_factor" = some v → v.isNumber = false →
+      weightFactorOfQuery dec q configured = .error .build) := by
+  refine ⟨fun h => by simp [weightFactorOfQuery, h], fun l b h => by simp [weightFactorOfQuery, h, Json.asF64Bits?], ?_⟩
+  intro v h hv
+  cases v <;> simp_all [weightFactorOfQuery, Json.asF64Bits?, Json.isNumber]
+
+/-! Non-vacuity: a three-row file (36, 72, 18 km/h) gives the engine with maximum 72; files with a
+negative row, a junk row, no row and only zero rows are refused. -/
+example : (speedEngineNew (some [.val (36 : ℚ), .val 72, .val 18]) .kilometersPerHour none none).toOption.map
+      (fun e => (e.maxSpeed, e.table, e.timeUnit, e.distanceUnit)) =
+    some (72, [36, 72, 18], baseTimeUnit, baseDistanceUnit) := by decide +kernel
+example : errOf (speedEngineNew (α := ℚ) (some [.val 36, .val (-1)]) .kilometersPerHour none none) = some .read := by decide +kernel
+example : errOf (speedEngineNew (α := ℚ) (some [.val 36, .junk]) .kilometersPerHour none none) = some .read := by decide +kernel
+example : errOf (speedEngineNew (α := ℚ) (some [.val 36, .nan]) .kilometersPerHour none none) = some .read := by decide +kernel
+example : errOf (speedEngineNew (α := ℚ) (some []) .kilometersPerHour none none) = some .empty := by decide +kernel
+example : errOf (speedEngineNew (α := ℚ) (some [.val 0, .val 0]) .kilometersPerHour none none) = some .zero := by decide +kernel
+example : weightFactorOfQuery (fun b => (b : ℚ)) (.obj [("weight_factor", .str "1.0")]) (some 1) = .error .build := by decide +kernel
 
 end C02
 end Compass
